@@ -23,6 +23,8 @@ import (
 	host "github.com/cosmos/ibc-go/v11/modules/core/24-host"
 	hostv2 "github.com/cosmos/ibc-go/v11/modules/core/24-host/v2"
 	ibctesting "github.com/cosmos/ibc-go/v11/testing"
+
+	"verif/harness/lib"
 )
 
 // result classes: ok | noop | err | panic
@@ -208,6 +210,16 @@ func (w *World) Exec(a Action) (res string, errStr string) {
 		msg := &banktypes.MsgSend{FromAddress: w.addr[a.C][a.From].String(), ToAddress: to.String(), Amount: sdk.Coins{coin}}
 		_, res, errStr = w.sendTx(a.C, a.From, msg)
 		return res, errStr
+
+	case "ExportImport":
+		chain := w.ch[a.C]
+		app := chain.GetSimApp()
+		_, err := lib.ExportImportModules(chain.GetContext(), app, app.ModuleManager, []string{"ibc", "transfer"})
+		w.block(a.C)
+		if err != nil {
+			return "err", err.Error()
+		}
+		return "ok", ""
 
 	case "Transfer":
 		return w.transfer(a)
